@@ -552,6 +552,16 @@ def run(ctx):
         for sp in star_kwargs(s.call):
             keys = prov.dict_keys(sp, s.fi)
             author = sorted(t for t in keys if t.startswith("CELLKEY"))
+            if isinstance(sp, ast.Name):
+                # keys the function removes from the dict before the call cannot collide any more
+                popped = set()
+                for c_ in walk_own(s.fi.node):
+                    if isinstance(c_, ast.Call) and isinstance(c_.func, ast.Attribute) and c_.func.attr == "pop" and isinstance(c_.func.value, ast.Name) and c_.func.value.id == sp.id and c_.args \
+                            and getattr(c_, "lineno", 0) <= getattr(s.call, "lineno", 0):
+                        okp, kp = const_str(ctx, s.fi.module, c_.args[0])
+                        if okp:
+                            popped.add(kp)
+                explicit = [k_ for k_ in explicit if k_ not in popped]
             if explicit and author:
                 r4.fail(f"K8 {s.fi.fq}:{norm(s.call)[:60]}", f"explicit keyword(s) {explicit} and **dict with author-controlled keys cannot collide", s.loc,
                         why_fail=f"a column suffix equal to {explicit} raises TypeError (multiple values for keyword)")
